@@ -342,7 +342,7 @@ def run(ctx):
     for net, o in _corpus():
         cases.append(_one(ctx, rng, 99, net=net, o=o, cc_notrav=[], src=int(net.bus.index[0])))
         ctx.count("corpus")
-    for k in range(ctx.n(150, 2500)):
+    for k in range(ctx.n(126, 2500)):
         cases.append(_one(ctx, rng, k))
     model = ctx.coq_eval("c26", "C07.Model C26.Model", [c["term"] for c in cases], shard=40, timeout=280)
     for c, m in zip(cases, model):
